@@ -15,10 +15,10 @@
 From Coq Require Import ZArith QArith List Bool Permutation Arith.
 From ONL Require Import Elem.Packet Elem.StoreQ
   Elem.HeapList Elem.WFQServer Elem.WFQServerProofs Elem.WFQServerTrace Elem.WFQ Elem.WFQProofs Elem.VC Elem.VCProofs Elem.WFQInst
-  Elem.DRR Elem.DRRInv Elem.DRRProofs
-  Elem.Wire Elem.Port Elem.Bucket Elem.BucketProofs Elem.SchedBase Elem.SchedBaseProofs Elem.SP
+  Elem.DRR Elem.DRRInv Elem.DRRProofs Elem.TwoRate Elem.TwoRateProofs Elem.Red
+  Elem.Wire Elem.Port Elem.PortProofs Elem.Bucket Elem.BucketProofs Elem.SchedBase Elem.SchedBaseProofs Elem.SP
   Elem.Network Elem.Iface Elem.Compose Elem.ComposePar Elem.ComposeHands Elem.AdaptWire Elem.AdaptPort Elem.AdaptBucket Elem.AdaptSched
-  Elem.AdaptSrv Elem.AdaptDRR Elem.AdaptTagged Elem.ComposeExample.
+  Elem.AdaptSrv Elem.AdaptDRR Elem.AdaptTwoRate Elem.AdaptRed Elem.AdaptTagged Elem.ComposeExample.
 Import ListNotations.
 
 (* ================= the composite is made of its parts ================= *)
@@ -216,6 +216,31 @@ Theorem C08_pipe_drr_adapter_exact : forall c t0 s s',
 Proof. exact (fun c t0 s s' => conj (fun acts tr => drr_run_elem c t0 acts s s' tr) (fun acts tr => drr_elem_run c t0 acts s s' tr)). Qed.
 Print Assumptions C08_pipe_drr_adapter_exact.
 
+Theorem C08_pipe_trtb_adapter_exact : forall c t0 s s',
+  (forall acts tr, tr_run true true c s acts = Some (s', tr) -> Iface.run (trtb_elem c t0) s (map r_of acts) = Some (s', map r_ev tr)) /\
+  (forall acts tr, Iface.run (trtb_elem c t0) s acts = Some (s', tr) ->
+     exists tr0, tr_run true true c s (map r_to acts) = Some (s', tr0) /\ tr = map r_ev tr0 /\ map r_of (map r_to acts) = acts).
+Proof. exact (fun c t0 s s' => conj (fun acts tr => tr_run_elem c t0 acts s s' tr) (fun acts tr => trtb_elem_run c t0 acts s s' tr)). Qed.
+Print Assumptions C08_pipe_trtb_adapter_exact.
+
+(* elements whose put() consumes a random draw (REDPort; any drop policy of Elem/Port.v): the adapter keeps an oracle tape of
+   draws in its state (`OLoad u` appends the next value of random.uniform, a put consumes the head exactly when the policy asks
+   for a draw), because in a composition the put is made inside an action of the UPSTREAM element.  Its executions are the
+   executions of port_run: adapter -> model for every tape; model -> adapter (each draw loaded right before the put that
+   consumes it) for every policy that asks for a determinate number of draws, which RED's and the tail-drop policy do *)
+Theorem C08_pipe_oport_adapter_exact : forall c t0,
+  (forall acts s tape s' tape' tr, Iface.run (oport_elem c t0) (s, tape) acts = Some ((s', tape'), tr) ->
+     exists tr0, port_run c s (o_model c s tape acts) = Some (s', tr0) /\
+                 Iface.puts tr = PortProofs.puts tr0 /\ Iface.fwds tr = forwarded tr0 /\ Iface.drops tr = dropped tr0) /\
+  (draw_det c -> forall acts s s' tr0, port_run c s acts = Some (s', tr0) ->
+     exists tr, Iface.run (oport_elem c t0) (s, []) (flat_map o_of acts) = Some ((s', []), tr) /\
+                Iface.puts tr = PortProofs.puts tr0 /\ Iface.fwds tr = forwarded tr0 /\ Iface.drops tr = dropped tr0) /\
+  (forall f rate rc eid, draw_det (red_cfg f rate rc eid)) /\ (forall f rate ql lb eid, draw_det (port_cfg f rate ql lb eid)).
+Proof.
+  exact (fun c t0 => conj (oport_elem_run c t0) (conj (port_run_oelem c t0) (conj red_draw_det tail_draw_det))).
+Qed.
+Print Assumptions C08_pipe_oport_adapter_exact.
+
 (* the per-element C08 theorems in interface form *)
 Theorem C08_pipe_wire_laws : forall loss t0, laws (wire_elem loss t0) /\ timed (wire_elem loss t0).
 Proof. exact (fun loss t0 => conj (wire_elem_laws loss t0) (wire_elem_timed loss t0)). Qed.
@@ -259,6 +284,16 @@ Theorem C08_pipe_drr_laws : forall cfg t0, dwf cfg ->
   laws (drr_elem cfg t0) /\ timed (drr_elem cfg t0) /\ tagged (drr_elem cfg t0).
 Proof. exact (fun cfg t0 W => conj (drr_elem_laws cfg t0 W) (conj (drr_elem_timed cfg t0) (drr_elem_tagged cfg t0))). Qed.
 Print Assumptions C08_pipe_drr_laws.
+
+Theorem C08_pipe_trtb_laws : forall c t0, trwf c ->
+  laws (trtb_elem c t0) /\ timed (trtb_elem c t0) /\ tagged (trtb_elem c t0).
+Proof. exact (fun c t0 W => conj (trtb_elem_laws c t0 W) (conj (trtb_elem_timed c t0) (trtb_elem_tagged c t0))). Qed.
+Print Assumptions C08_pipe_trtb_laws.
+
+(* REDPort (and the port under any other drop policy, draws or not) *)
+Theorem C08_pipe_oport_laws : forall c t0, laws (oport_elem c t0) /\ timed (oport_elem c t0) /\ tagged (oport_elem c t0).
+Proof. exact (fun c t0 => conj (oport_elem_laws c t0) (conj (oport_elem_timed c t0) (oport_elem_tagged c t0))). Qed.
+Print Assumptions C08_pipe_oport_laws.
 
 (* ================= a concrete family: Port >> Wire >> TokenBucket, every configuration ================= *)
 (* every admissible execution of the three-stage pipeline: injected = delivered ++ dropped (port refusals, wire losses) ++
